@@ -259,6 +259,22 @@ fn check_valid(fmt: Fmt, canonical: &[u8], written_by_lib: Result<Vec<u8>, Strin
                 other => p.violation(format!("C17/{:?}/valid-file-rejected-at-stream-offset", fmt), format!("{:?}: a canonical file read from stream offset {k} is rejected: {:?}", fmt, other.map(|x| x.map(|_| ()))), replay.clone()),
             }
         }
+        // written over old content (a reused scratch buffer, a file overwritten in place): every byte of the file is
+        // written, none is left to whatever was there before
+        if let Some(Ok(parsed)) = parse(fmt, canonical, p, "valid") {
+            let mut out = Cursor::new(vec![0xAAu8; canonical.len() + 16]);
+            let w = guarded(|| match &parsed {
+                Parsed::Pth(x) => x.write(&mut out).map_err(|e| e.to_string()),
+                Parsed::Smx(x) => x.write(&mut out).map_err(|e| e.to_string()),
+            });
+            let end = out.position() as usize;
+            let bytes = out.into_inner();
+            p.evaluations += 1;
+            if !matches!(w, Ok(Ok(()))) || end != canonical.len() || bytes[..end.min(bytes.len())] != canonical[..] {
+                let at = bytes.iter().zip(canonical.iter()).position(|(a, b)| a != b).unwrap_or(0);
+                p.violation(format!("C17/{:?}/roundtrip-differs-over-old-content", fmt), format!("{:?}: written into a buffer that held other data, a canonical file differs at offset {at} (writer position {end}, file {} bytes)", fmt, canonical.len()), replay.clone());
+            }
+        }
         let max = 1 + canonical.len() % 7;
         let mut rd = crate::ioadapt::ChunkReader::new(canonical, max);
         let got = guarded(|| match fmt {
